@@ -56,7 +56,7 @@ class Gen:
         return str(self.small())
 
     def vec(self, n, mark):
-        k = self.rng.randrange(n) if (mark and self.rng.random() < 0.8) else -1
+        k = self.rng.randrange(n) if (n and mark and self.rng.random() < 0.8) else -1
         return [self.elem(mark if i == k else None) for i in range(n)]
 
     def scalar(self):
@@ -236,6 +236,144 @@ def gen(ctx):
                     emit("leftmultiply", "DM", "DM", r, c, 0, M(r, c, 97) + M(r, r, 101))
                     emit("rightmultiply", "DM", "DM", r, c, 0, M(r, c, 97) + M(c, c, 101))
                     emit("mul", "DM", "TD", r, c, (r + d) % 5 + 1, M(r, c, 97) + M((r + d) % 5 + 1, c, 101))
+    cases += gen_extra(ctx)
+    return cases
+
+
+def gen_extra(ctx):
+    """streams for the members / overloads / constructors / conversions / free functions that the kernel streams do not
+    reach (mutants/C01/API_COVERAGE.md); harness/C01/impl_extra.hh, ops prefixed with x"""
+    quick = ctx.quick
+    draws = 1 if quick else 4
+    cases = []
+    S = range(1, MAXN + 1)
+    for f in FIELDS:
+        rng = ctx.rng("genx", f)
+        g = Gen(rng, f)
+        src = Gen(rng, "Z")           # entries of the source field of cross-field operations (real / integer)
+
+        def sel(e):
+            return (e + ":0") if f == "C" else e
+
+        def M(r, c, mark):
+            k = rng.randrange(r * c) if (r * c and mark and rng.random() < 0.85) else -1
+            return [g.elem(mark if i == k else None) for i in range(r * c)]
+
+        def MS(r, c, mark):
+            k = rng.randrange(r * c) if (r * c and mark) else -1
+            return [sel(src.elem(mark if i == k else None)) for i in range(r * c)]
+
+        def emit(op, rep, rep2, r, c, p, toks):
+            cases.append(" ".join([f, op, rep, rep2, str(r), str(c), str(p)] + toks))
+
+        dynv = [0, 1, 2, 5, 17, 40]
+        dynm = [(1, 1), (2, 3), (3, 2), (1, 7), (6, 1), (9, 12), (12, 9), (2, 0)]
+        for d in range(draws):
+            # kernels on degenerate / large dynamic shapes (columns 0, 9x12, 12x9)
+            for (r, c) in [(2, 0), (9, 12), (12, 9), (1, 15)]:
+                for op in KERNELS:
+                    xs, ys = (c, r) if op in NK else (r, c)
+                    emit(op, "DM", "DV", r, c, 0, [g.scalar()] + M(r, c, 97) + g.vec(xs, 101) + g.vec(ys, 103))
+                for op in ("mv", "mtv"):
+                    xs, ys = (r, c) if op == "mv" else (c, r)
+                    emit(op, "TD", "DV", r, c, 0, [g.scalar()] + M(r, c, 97) + g.vec(xs, 101) + g.vec(ys, 103))
+            for n in [0, 17, 40]:
+                for op in ["vadd", "vsub", "vplus", "vminus", "vneg", "vadds", "vsubs", "vscale", "vaxpy", "veq", "vdotT", "vdot"]:
+                    emit(op, "DV", "DV", n, 0, 0, [g.scalar()] + g.vec(n, 101) + g.vec(n, 103))
+            for (r, c) in [(9, 12), (12, 9), (2, 0)]:
+                for op in ["madd", "msub", "mscale", "maxpy", "meq", "mneg"] + (["transposed"] if c else []):
+                    emit(op, "DM", "DM", r, c, 0, [g.scalar()] + M(r, c, 97) + M(r, c, 103))
+            emit("leftmultiply", "DM", "DM", 9, 12, 0, M(9, 12, 97) + M(9, 9, 101))
+            emit("rightmultiply", "DM", "DM", 12, 9, 0, M(12, 9, 97) + M(9, 9, 101))
+            # every pair of representations through the generic DenseMatrix paths, non-square receivers
+            for r in S:
+                for c in S:
+                    if r != c:
+                        for (rep, rep2) in [("FM", "FM"), ("FM", "DM"), ("DM", "DM"), ("DM", "FM")]:
+                            emit("leftmultiply", rep, rep2, r, c, 0, M(r, c, 97) + M(r, r, 101))
+                            emit("rightmultiply", rep, rep2, r, c, 0, M(r, c, 97) + M(c, c, 101))
+            # fill / copy / move / conversion
+            for n in S:
+                emit("xfill", "FV", "FV", n, 0, 0, [g.scalar()] + g.vec(n, 101))
+                emit("xfill", "DG", "DG", n, n, 0, [g.scalar()] + g.vec(n, 97))
+                for (rep, rep2) in [("FV", "FV"), ("FV", "DV"), ("DV", "FV")]:
+                    emit("xcopy", rep, rep2, n, 0, 0, [g.scalar()] + g.vec(n, 101))
+                emit("xmcopy", "DG", "DG", n, n, 0, [g.scalar()] + g.vec(n, 97))
+                emit("xdgadds", "DG", "DG", n, n, 0, [g.scalar()] + g.vec(n, 97))
+                emit("xdgsubs", "DG", "DG", n, n, 0, [g.scalar()] + g.vec(n, 97))
+                emit("xvaccess", "FV", "FV", n, 0, 0, [g.scalar()] + g.vec(n, 101) + g.vec(n, 103))
+                emit("xmaccess", "DG", "DG", n, n, 0, [g.scalar()] + g.vec(n, 97) + g.vec(n, 103))
+                emit("xdotfree", "FV", "FV", n, 0, 0, [g.scalar()] + g.vec(n, 101) + g.vec(n, 103))
+                if f in ("Z", "D", "C"):
+                    emit("xnorm", "FV", "FV", n, 0, 0, [g.scalar()] + g.vec(n, 101))
+                    emit("xnorm", "DG", "DG", n, n, 0, [g.scalar()] + g.vec(n, 97))
+                if f in ("D", "C"):
+                    emit("xfield", "FV", "FV", n, 0, 0, [g.scalar()] + MS(1, n, 101))
+                    for op in ["xmixdot", "xmixdotT", "xmixvadd", "xmixaxpy"] + (["xmixscale"] if not (f == "C" and n == 1) else []):
+                        emit(op, "FV", "FV", n, 0, 0, [g.scalar()] + MS(1, n, 101) + g.vec(n, 103))
+                    emit("xmixdg", "DG", "DG", n, n, 0, [g.scalar()] + MS(1, n, 97) + g.vec(n, 101))
+                for c in S:
+                    emit("xfill", "FM", "FM", n, c, 0, [g.scalar()] + M(n, c, 97))
+                    emit("xmcopy", "FM", "FM", n, c, 0, [g.scalar()] + M(n, c, 97))
+                    emit("xmaccess", "FM", "FM", n, c, 0, [g.scalar()] + M(n, c, 97) + M(n, c, 103))
+                    emit("xtw", "FM", "FM", n, c, 0, [g.scalar()] + M(n, c, 97) + g.vec(n, 101) + g.vec(c, 103))
+                    emit("xhelpmv", "FM", "FM", n, c, 0, [g.scalar()] + M(n, c, 97) + g.vec(c, 101) + g.vec(n, 103))
+                    emit("xhelpmtv", "FM", "FM", n, c, 0, [g.scalar()] + M(n, c, 97) + g.vec(n, 101) + g.vec(c, 103))
+                    emit("xhelpmtm", "FM", "FM", n, c, 0, [g.scalar()] + M(n, c, 97) + M(c, c, 103))
+                    if f in ("Z", "D", "C"):
+                        emit("xnorm", "FM", "FM", n, c, 0, [g.scalar()] + M(n, c, 97))
+                    if f in ("D", "C"):
+                        emit("xfield", "FM", "FM", n, c, 0, [g.scalar()] + MS(n, c, 97))
+                        emit("xmixadd", "FM", "FM", n, c, 0, [g.scalar()] + MS(n, c, 97) + M(n, c, 103))
+                        emit("xmixsub", "FM", "FM", n, c, 0, [g.scalar()] + MS(n, c, 97) + M(n, c, 103))
+                        emit("xmixmscale", "FM", "FM", n, c, 0, [g.scalar()] + MS(n, c, 97))
+                        emit("xmixumv", "FM", "FM", n, c, 0, [g.scalar()] + MS(n, c, 97) + MS(1, c, 101) + g.vec(n, 103))
+                    for p in S:
+                        if (n + c + p + d) % 2 == 0 or not quick:
+                            emit("xhelpmult", "FM", "FM", n, c, p, [g.scalar()] + M(n, c, 97) + M(c, p, 101) + M(n, p, 103))
+                            if f in ("D", "C"):
+                                emit("xmixmul", "FM", "FM", n, c, p, [g.scalar()] + MS(n, c, 97) + M(c, p, 101))
+            for n in dynv:
+                emit("xfill", "DV", "DV", n, 0, 0, [g.scalar()] + g.vec(n, 101))
+                emit("xcopy", "DV", "DV", n, 0, 0, [g.scalar()] + g.vec(n, 101))
+                emit("xvaccess", "DV", "DV", n, 0, 0, [g.scalar()] + g.vec(n, 101) + g.vec(n, 103))
+                for m in [0, 1, n, n + 3]:
+                    emit("xresize", "DV", "DV", n, m, 0, [g.scalar()] + g.vec(n, 101))
+                if n:
+                    emit("xdotfree", "DV", "DV", n, 0, 0, [g.scalar()] + g.vec(n, 101) + g.vec(n, 103))
+                if f in ("Z", "D", "C"):
+                    emit("xnorm", "DV", "DV", n, 0, 0, [g.scalar()] + g.vec(n, 101))
+                if f in ("D", "C"):
+                    emit("xfield", "DV", "DV", n, 0, 0, [g.scalar()] + MS(1, n, 101))
+            for (r, c) in dynm:
+                emit("xfill", "DM", "DM", r, c, 0, [g.scalar()] + M(r, c, 97))
+                if c:
+                    emit("xmcopy", "DM", "DM", r, c, 0, [g.scalar()] + M(r, c, 97))
+                    emit("xmaccess", "DM", "DM", r, c, 0, [g.scalar()] + M(r, c, 97) + M(r, c, 103))
+                    emit("xtw", "DM", "DM", r, c, 0, [g.scalar()] + M(r, c, 97) + g.vec(r, 101) + g.vec(c, 103))
+                    emit("xhelpmvd", "DM", "DM", r, c, 0, [g.scalar()] + M(r, c, 97) + g.vec(c, 101) + g.vec(r, 103))
+                    if f in ("Z", "D", "C"):
+                        emit("xnorm", "DM", "DM", r, c, 0, [g.scalar()] + M(r, c, 97))
+                    if f in ("D", "C"):
+                        emit("xfield", "DM", "DM", r, c, 0, [g.scalar()] + MS(r, c, 97))
+            # 1x1 matrices / size-1 vectors used like scalars, scalar views
+            for _ in range(3):
+                for op in ["xfm11adds", "xfm11sadd", "xfm11subs", "xfm11ssub", "xfm11pluseq", "xfm11minuseq", "xfm11timeseq", "xfm11mpluseq", "xfm11conv"]:
+                    emit(op, "FM", "FM", 1, 1, 0, [g.scalar(), g.elem(97), g.elem(103)])
+                for op in ["xfv1adds", "xfv1sadd", "xfv1subs", "xfv1ssub", "xfv1muls", "xfv1smul", "xfv1conv"]:
+                    emit(op, "FV", "FV", 1, 0, 0, [g.scalar(), g.elem(101), g.elem(103)])
+                a = g.elem(101)
+                emit("xfv1eq", "FV", "FV", 1, 0, 0, [rng.choice([a, g.scalar()]), a, rng.choice([a, g.elem(103)])])
+                if f in ("Z", "D"):
+                    a = g.elem()
+                    emit("xfv1cmp", "FV", "FV", 1, 0, 0, [rng.choice([a, g.elem()]), a, rng.choice([a, g.elem(), g.elem(103)])])
+                dv = g.divisor()
+                emit("xfm11diveq", "FM", "FM", 1, 1, 0, [g.dstr(dv), g.times(g.elem(97), dv), g.elem(103)])
+                emit("xfv1divs", "FV", "FV", 1, 0, 0, [g.dstr(dv), g.times(g.elem(101), dv), g.elem(103)])
+                emit("xfv1sdiv", "FV", "FV", 1, 0, 0, [g.times(g.elem(101), dv), g.dstr(dv), g.elem(103)])
+                emit("xview", "SV", "SV", 1, 1, 0, [g.scalar(), g.elem(97), g.elem(101), g.elem(103)])
+                emit("xfill", "SW", "SW", 1, 0, 0, [g.scalar(), g.elem(101), g.elem(103)])
+                emit("xfill", "SV", "SV", 1, 1, 0, [g.scalar(), g.elem(97), g.elem(103)])
     return cases
 
 
@@ -382,6 +520,9 @@ def run(ctx):
         "rule": "cases = corpus + for each field in %s, each operation of the shared interface, each representation (pair) and each shape "
                 "r,c,p in 1..%d (DynamicMatrix/DynamicVector also up to 7): %d seeded value draws (small entries with forced zeros/units/negatives, "
                 "one entry per operand marked by a distinct prime 97/101/103, exact-division operands for the division ops); "
+                "plus the x-streams of the API-coverage audit (mutants/C01/API_COVERAGE.md): fill/copy/move/conversion between representations "
+                "and field types, mixed-field arithmetic, 1x1 / size-1 scalar overloads, FMatrixHelp, integer-exact norms, const/non-const access "
+                "and iterators, views, wrapper by value vs by reference, dynamic sizes 0/1/2/17/40 and 2x0/9x12/12x9; "
                 "non-trivial = some data entry non-zero; distinct = distinct case lines" % (sorted(FIELDS), MAXN, 2 if ctx.quick else 10),
         "samples": cases[:2] + cases[len(cases) // 3: len(cases) // 3 + 2] + cases[-2:],
         "op_distribution": ops, "representation_pairs": reps, "fields": fields, "shapes_hit": len(shapes),
